@@ -21,7 +21,7 @@ None == "none"
 Inf  == 1000000000         \* energy of accounts that are not tracked (rich accounts)
 
 VARIABLES cfg,      \* [limit, lpa, lifetime, identity]  pool options + which promote rule (never changes in a run)
-          txs,      \* hash -> [id, org, dlg, cost, cap, prio, prio0, ref, exp, dep, typed]     what is known about signed txs
+          txs,      \* hash -> [id, org, dlg, cost, costs, cap, prio, prio0, ref, exp, dep, typed]     what is known about signed txs
                     \*         (cap: the most it pays per gas; prio: priority fee from GALACTICA on, prio0: before)
           objs,     \* object id -> [h, src, t, flag, priced, cost, pay, prio]
           byHash,   \* hash -> object id          (mapByHash: THE pool)
@@ -29,7 +29,7 @@ VARIABLES cfg,      \* [limit, lpa, lifetime, identity]  pool options + which pr
           quota,    \* account -> count           (entries are deleted when they reach 0)
           cost,     \* account -> pending cost    (entries are deleted when they reach 0)
           pub,      \* published executables: sequence of [h, prio]
-          head,     \* [num, incl, rev, energy, basefee, gala, synced]  facts about the best block (basefee: of the NEXT block)
+          head,     \* [num, incl, rev, energy, basefee, bf, gala, synced]  facts about the best block (basefee: of the NEXT block)
           blocked,  \* fetched blocklist
           tick,     \* housekeeping locals: [seen (head num at the last tick), added (addedAfterWash > 0)]
           w,        \* the in-flight wash
@@ -55,6 +55,11 @@ LexLess(a, b) == IF a = <<>> \/ b = <<>> THEN FALSE
                  ELSE IF Head(a) # Head(b) THEN Head(a) < Head(b) ELSE LexLess(Tail(a), Tail(b))
 
 Payer(tx)   == IF tx.dlg # None THEN tx.dlg ELSE tx.org
+\* what the payer is charged up front when the tx is priced against head hd: gas x effective price.  For a dynamic-fee tx
+\* whose fee cap leaves head-room the effective price moves with the base fee; costs lists the value per base fee (key hd.bf)
+\* where it differs from tx.cost.  The pool computes it ONCE, when the object becomes executable, and accounts that value
+\* until the object leaves - whatever the base fee does meanwhile.
+CostAt(tx, hd) == IF hd.bf \in DOMAIN tx.costs THEN tx.costs[hd.bf] ELSE tx.cost
 PrioOf(tx, hd) == IF hd.gala THEN tx.prio ELSE tx.prio0     \* priority fee as Evaluate computes it against head hd
 Size        == Cardinality(DOMAIN byHash)
 Pooled      == Image(byHash)
@@ -84,7 +89,7 @@ Evaluate(tx, hd) ==
   ELSE IF tx.dep # None /\ tx.dep \in hd.rev THEN Drop("depreverted")
   ELSE IF tx.ref > n THEN [r |-> "nonexec"]
   ELSE IF LexLess(tx.cap, hd.basefee) THEN Drop("unpayable")       \* BuyGas: gas price is less than block base fee
-  ELSE IF Energy(hd, Payer(tx)) < tx.cost THEN Drop("unpayable")   \* BuyGas: insufficient energy
+  ELSE IF Energy(hd, Payer(tx)) < CostAt(tx, hd) THEN Drop("unpayable")   \* BuyGas: insufficient energy
   ELSE [r |-> "exec"]
 
 \* checkTxPriority: strictly above the published tx at the 90th percentile
@@ -122,30 +127,30 @@ AddVerdict(h, exec, hd) ==
   IF h \in DOMAIN byHash THEN "dup"
   ELSE IF At(quota, tx.org, 0) >= LimitPerAccount THEN "quota"
   ELSE IF tx.dlg # None /\ At(quota, tx.dlg, 0) >= LimitPerAccount THEN "dquota"
-  ELSE IF exec /\ hd.synced /\ At(cost, Payer(tx), 0) + tx.cost > Energy(hd, Payer(tx)) THEN "payer"
+  ELSE IF exec /\ hd.synced /\ At(cost, Payer(tx), 0) + CostAt(tx, hd) > Energy(hd, Payer(tx)) THEN "payer"
   ELSE "ok"
 
-NewObj(h, src, t, exec, pr) ==
+NewObj(h, src, t, exec, pr, c) ==
   LET tx == txs[h] IN
   [h |-> h, src |-> src, t |-> t, flag |-> exec, priced |-> exec,
-   cost |-> IF exec THEN tx.cost ELSE 0, pay |-> IF exec THEN Payer(tx) ELSE None, prio |-> IF exec THEN pr ELSE <<>>]
+   cost |-> IF exec THEN c ELSE 0, pay |-> IF exec THEN Payer(tx) ELSE None, prio |-> IF exec THEN pr ELSE <<>>]
 
 \* pr: the priority the implementation computed (a fact; equal to txs[h].prio in the model-checking configs)
 AddLocked(o, h, src, t, exec, hd, pr) ==
   LET tx == txs[h] IN
   IF AddVerdict(h, exec, hd) # "ok" THEN UNCHANGED <<objs, byHash, byID, quota, cost>>
   ELSE /\ o \notin DOMAIN objs
-       /\ objs' = Put(objs, o, NewObj(h, src, t, exec, pr))
+       /\ objs' = Put(objs, o, NewObj(h, src, t, exec, pr, CostAt(tx, hd)))
        /\ byHash' = Put(byHash, h, o)
        /\ byID' = Put(byID, tx.id, o)
        /\ quota' = IncQ(quota, tx)
-       /\ cost' = IF exec THEN AddCost(cost, Payer(tx), tx.cost) ELSE cost
+       /\ cost' = IF exec THEN AddCost(cost, Payer(tx), CostAt(tx, hd)) ELSE cost
 
 \* txObjectMap.Fill, one element: no limit check, no cost
 FillLocked(o, h, t) ==
   IF h \in DOMAIN byHash THEN UNCHANGED <<objs, byHash, byID, quota, cost>>
   ELSE /\ o \notin DOMAIN objs
-       /\ objs' = Put(objs, o, NewObj(h, "fill", t, FALSE, <<>>))
+       /\ objs' = Put(objs, o, NewObj(h, "fill", t, FALSE, <<>>, 0))
        /\ byHash' = Put(byHash, h, o)
        /\ byID' = Put(byID, txs[h].id, o)
        /\ quota' = IncQ(quota, txs[h])
@@ -217,7 +222,7 @@ WashEval(outlived, pr) ==
          local == ob.src = "local"
      IN /\ objs' = IF e.r = "exec"
                    THEN IF ob.flag THEN [objs EXCEPT ![o].prio = pr]
-                        ELSE [objs EXCEPT ![o].priced = TRUE, ![o].cost = tx.cost, ![o].pay = Payer(tx), ![o].prio = pr]
+                        ELSE [objs EXCEPT ![o].priced = TRUE, ![o].cost = CostAt(tx, w.hd), ![o].pay = Payer(tx), ![o].prio = pr]
                    ELSE objs
         /\ w' = [w EXCEPT !.i = @ + 1,
                           !.rm  = IF e.r = "drop" THEN Append(@, RmEntry(o, e.why, 0, 0)) ELSE @,
@@ -370,7 +375,7 @@ Justified(d) ==
     [] d.why = "settled"      -> tx.id \in d.hd.incl
     [] d.why = "depreverted"  -> tx.dep \in d.hd.rev
     [] d.why = "inadmissible" -> tx.ref > d.hd.num + 31 \/ (tx.typed /\ ~d.hd.gala)
-    [] d.why = "unpayable"    -> \/ Energy(d.hd, Payer(tx)) < tx.cost \/ LexLess(tx.cap, d.hd.basefee)
+    [] d.why = "unpayable"    -> \/ Energy(d.hd, Payer(tx)) < CostAt(tx, d.hd) \/ LexLess(tx.cap, d.hd.basefee)
                                  \/ (d.a > d.b /\ d.b = Energy(d.hd, Payer(tx)))
     [] d.why = "blocked"      -> IsBlocked(tx)
     [] d.why = "outlived"     -> d.src # "local" /\ Lifetime # "never"
